@@ -19,6 +19,9 @@ along with the GNU MP Library; see the file COPYING.LIB.  If not, write to
 the Free Software Foundation, Inc., 51 Franklin Street, Fifth Floor, Boston,
 MA 02110-1301, USA. */
 
+#include <stdio.h>
+#include <stdlib.h>
+#include <limits.h>
 #include "mpir.h"
 #include "gmp-impl.h"
 
@@ -27,5 +30,14 @@ mp_size_t __gmp_default_fp_limb_precision = __GMPF_BITS_TO_PREC (53);
 void
 mpf_set_default_prec (mp_bitcnt_t prec_in_bits)
 {
-  __gmp_default_fp_limb_precision = __GMPF_BITS_TO_PREC (prec_in_bits);
+  mp_size_t prec = __GMPF_BITS_TO_PREC (prec_in_bits);
+  /* _mp_prec is an int (and prec+1 limbs are allocated): a larger precision
+     cannot be recorded, and storing it would leave a wrong, possibly negative
+     precision behind */
+  if (UNLIKELY (prec > INT_MAX - 1))
+    {
+      fprintf (stderr, "gmp: overflow in mpf type\n");
+      abort ();
+    }
+  __gmp_default_fp_limb_precision = prec;
 }
